@@ -488,6 +488,11 @@ def handle (args : List String) : Option String :=
         let T ← toBasis? d n (← parseCList? toB)
         let v ← toVec? n (← parseCList? v)
         some (showV (convertVec F T v))
+  | ["vdot", a, b, x, y] => do
+      let a ← parseNat? a; let b ← parseNat? b
+      let x ← toMat? a b (← parseCList? x)
+      let y ← toMat? a b (← parseCList? y)
+      some ("ok " ++ showCList [vdot x y])
   | ["compBasis", d, mode] => do
       let d ← parseNat? d
       let rm ← (if mode = "row_major" then some true else if mode = "column_major" then some false else none)
